@@ -57,7 +57,7 @@ RootState(e) ==
    hx   |-> IF e.ph = 1 THEN <<e.th>> ELSE <<>>,
    zh   |-> IF e.ph = 1 THEN <<<<e.b, e.s>>>> ELSE <<>>,
    tr |-> FALSE,
-   lo |-> SetOf(e.off), ln |-> e.norep, lv |-> e.pv]
+   lo |-> SetOf(e.off), ln |-> e.norep, lv |-> e.pv, ldg |-> e.dg, seen |-> <<>>]
 
 ChildState(pre, e) ==
   LET ended == e.ph = 1 /\ e.st = 0
@@ -74,7 +74,11 @@ ChildState(pre, e) ==
             ELSE IF fresh THEN <<<<e.b, e.s>>>>
             ELSE Append(IF pre.tr \/ cap THEN <<>> ELSE pre.zh, <<e.b, e.s>>),
    tr |-> IF ended THEN FALSE ELSE (pre.tr \/ cap),
-   lo |-> SetOf(e.off), ln |-> e.norep, lv |-> e.pv]
+   lo |-> SetOf(e.off), ln |-> e.norep, lv |-> e.pv, ldg |-> e.dg, seen |-> <<>>]
+
+\* C18: the digests (of the complete observation) of the children seen so far, per action
+Remember(st, a, dg) ==
+  [st EXCEPT !.seen = [x \in DOMAIN st.seen \cup {a} |-> IF x = a THEN dg ELSE st.seen[x]]]
 
 ---------------------------------------------------------------------------
 (* Per-property conjuncts.  e = event, cs = adopted child state,           *)
@@ -316,11 +320,43 @@ TraceAct ==
      IN /\ Chk("harness", "action is in neither list of the parent", a \in SetOf(pre.ln) \cup pre.lo)
         /\ TransConjuncts(pre, a, n, e, cs)
         /\ StateConjuncts(e, cs)
-        /\ stack' = IF e.push = 1 THEN Append(base, cs)
+        /\ (Enforced("C18") =>
+              Chk("C18", "the same action from the same state gave a different observation",
+                  a \in DOMAIN pre.seen => pre.seen[a] = e.dg))
+        /\ stack' = IF e.push = 1
+                    THEN Append(Append(SubSeq(base, 1, Len(base) - 1), Remember(pre, a, e.dg)), cs)
                     ELSE Append(SubSeq(base, 1, Len(base) - 1), cs)
   /\ l' = l + 1
 
-TraceNext == TraceReset \/ TraceAct
+\* C18: a thread expanded the current state concurrently with others; only the digest of
+\* its complete observation of the child is logged
+TraceThreadDigest ==
+  /\ l <= Len(Rec) /\ Rec[l].ev = "tdig"
+  /\ LET e == Rec[l]
+         base == SubSeq(stack, 1, Len(stack) - e.pop)
+         pre  == base[Len(base)]
+     IN /\ (Enforced("C18") =>
+              /\ Chk("C18", "a thread panicked while expanding a shared state: " \o e.dg,
+                     SubSeq(e.dg, 1, 6) # "panic:")
+              /\ Chk("C18", "concurrent expansion differs from the sequential expansion of the same state",
+                     e.a \in DOMAIN pre.seen /\ pre.seen[e.a] = e.dg))
+        /\ TLCSet(20, TLCGet(20) + 1)
+        /\ stack' = base
+  /\ l' = l + 1
+
+\* C18: the shared state observed again after the threads have joined
+TraceReobserve ==
+  /\ l <= Len(Rec) /\ Rec[l].ev = "reobs"
+  /\ LET e == Rec[l]
+         base == SubSeq(stack, 1, Len(stack) - e.pop)
+         pre  == base[Len(base)]
+     IN /\ (Enforced("C18") =>
+              Chk("C18", "a shared state changed while threads were expanding it", e.dg = pre.ldg))
+        /\ TLCSet(21, TLCGet(21) + 1)
+        /\ stack' = base
+  /\ l' = l + 1
+
+TraceNext == TraceReset \/ TraceAct \/ TraceThreadDigest \/ TraceReobserve
 
 TraceSpec == TraceInit /\ [][TraceNext]_tvars
 
